@@ -16,6 +16,8 @@
 (*      some, rtime, steps,         -- returned MacroStep (some = not None)*)
 (*      exc, eobj, eidx,            -- raised exception class ("" = none)  *)
 (*      log,                        -- chronological effect log (LogE)     *)
+(*      stale,                      -- number of MacroSteps returned by    *)
+(*                                     EARLIER calls whose content changed *)
 (*      ign,                        -- run with ignore_contract=True       *)
 (*      hasl2, l2,                  -- a second listener attached after    *)
 (*                                     the monitor, and what it received   *)
@@ -283,6 +285,9 @@ C03_order(c, G, o) ==
     /\ LET ts == Trs(o)
        IN \A i, j \in DOMAIN ts :
             i < j => LessNegDN(c, c.trans[ts[i]].src, c.trans[ts[j]].src)
+
+(* the MacroStep objects returned by earlier calls still say what they said when returned *)
+C03_immutable(c, G, o) == o.stale = 0
 
 (* every stabilisation micro step is one of the four documented kinds *)
 C03_stab(c, G, o) ==
@@ -582,6 +587,7 @@ Bad(c, G, o) ==
     Check(<<"C03", "scope">>, C03_scope(c, G, o)),
     Check(<<"C03", "order">>, C03_order(c, G, o)),
     Check(<<"C03", "stab">>, C03_stab(c, G, o)),
+    Check(<<"C03", "immutable">>, C03_immutable(c, G, o)),
     Check(<<"C04", "kind">>, C04_kind(c, G, o)),
     Check(<<"C04", "unchanged">>, C04_unchanged(c, G, o)),
     Check(<<"C05", "oneevent">>, C05_one_event(c, G, o)),
